@@ -74,7 +74,7 @@ Section SchemaCtrl.
              end
       end
     | ISetMeta (TAcc a) md =>
-      Done (with_accounts s (upsert_account_d (f_acc_hist f) now (s_accounts s, s_ahist s) a (dflt a) md None None None)) (PSetMeta (TAcc a) md)
+      Done (with_accounts s (upsert_account_d (f_acc_hist f) now (s_accounts s, s_ahist s) a (dflt a) md (Some now) None None)) (PSetMeta (TAcc a) md)
     | _ => run_input f now s i
     end.
 
